@@ -533,11 +533,12 @@ def judge(case, steps: list[Step]) -> tuple[list[Violation], RefModel]:
                     m.labels.add("raise-in:" + pre)
             else:
                 if st.exc is not None:
+                    # also the access that notices the expired error timeout (Reconnect -> Error) was issued in
+                    # Reconnect and is masked: the state it leaves behind raises, the call itself does not
                     if pre == "Reconnect" and post == "Error":
                         m.labels.add("raise-on-error-transition")
-                    else:
-                        V("raised:%s:%s:%s" % (pre, kc, st.exc[1] if st.exc[0] == "other" else "HardwareLayerException"),
-                          "%s raised %r although errors are masked in state %s" % (st.brief(), st.exc, pre))
+                    V("raised:%s:%s:%s" % (pre, kc, st.exc[1] if st.exc[0] == "other" else "HardwareLayerException"),
+                      "%s raised %r although errors are masked in state %s" % (st.brief(), st.exc, pre))
                 elif st.kind in ("read", "read_batch"):
                     fresh = any(e[0] == "r" for e in st.ev)
                     want = [m.last_good.get(r) for r in st.regs]
